@@ -101,6 +101,7 @@ func c15Argv(r *rand.Rand, o c15Opt, query string) []string {
 	add(o.ExitStatus, 'e', "--exit-status")
 	add(o.Null, 'n', "--null-input")
 	add(o.Slurp, 's', "--slurp")
+	add(o.RawIn, 'R', "--raw-input")
 	if o.Raw0 {
 		toks = append(toks, []string{"--raw-output0"})
 	}
@@ -446,6 +447,24 @@ func c15Systematic(c *run.Ctx) {
 	rw := with(func(o *c15Opt) { o.Raw = true })
 	cm := with(func(o *c15Opt) { o.Compact = true })
 	do := func(o c15Opt, q, stdin, gen string) { kC15.Do(c, c15Case_(nil, o, q, stdin, gen)) }
+
+	// raw input: every line is one input whatever its length (sizes around the readers' buffers), in order, also
+	// behind --null-input and under --slurp; a last line without a newline counts, an empty tail does not
+	for _, n := range []int{0, 1, 4094, 4095, 4096, 4097, 8191, 8192, 8193, 65535, 65536, 70001} {
+		long := strings.Repeat("y", n)
+		for pi, stdin := range []string{long + "\n", "first\n" + long + "\nlast\n", "a\nb\n" + long, long + "\n" + long + "\nz", "\n" + long + "\n\n"} {
+			if c.Quick() && (n+pi)%2 != 0 {
+				continue
+			}
+			ri := with(func(o *c15Opt) { o.RawIn = true })
+			do(ri, "length", stdin, "sys-raw-input-lines")
+			do(with(func(o *c15Opt) { o.RawIn, o.Raw = true, true }), "., length", stdin, "sys-raw-input-lines")
+			do(with(func(o *c15Opt) { o.RawIn, o.Null, o.Compact = true, true, true }), "[inputs | length]", stdin, "sys-raw-input-lines")
+			do(with(func(o *c15Opt) { o.RawIn, o.Null = true, true }), "input | length", stdin, "sys-raw-input-lines")
+			do(with(func(o *c15Opt) { o.RawIn, o.Slurp = true, true }), "length, (split(\"\\n\") | length)", stdin, "sys-raw-input-lines")
+			do(with(func(o *c15Opt) { o.RawIn, o.ExitStatus = true, true }), "if length > 5 then error(\"ZQ1X\") else length end", stdin, "sys-raw-input-lines")
+		}
+	}
 
 	// every halt code x message; the message rule and status modulo 256
 	for i, code := range c15HaltCodes {
